@@ -2,9 +2,32 @@
 import shared
 
 
+BOTH = (("shared", None), ("meta", "PLAN_META"))
+
+
+def merged(ctx, corpora):
+  """Union of several cached corpora: (result dict, plan lookup for n_bundles)."""
+  out = {"verdicts": [], "traces": [], "reused": True, "gen_wall": 0, "tlc_wall": 0, "key": []}
+  plans = {}
+  for name, plan_name in corpora:
+    plan = getattr(shared, plan_name) if plan_name else shared.PLAN
+    r = shared.get(ctx, name=name, plan=plan)
+    out["verdicts"] += r["verdicts"]
+    out["traces"] += r["traces"]
+    out["reused"] = out["reused"] and r["reused"]
+    out["gen_wall"] += 0 if r["reused"] else r["gen_wall"]
+    out["tlc_wall"] += 0 if r["reused"] else r["tlc_wall"]
+    out["key"].append(r.get("key"))
+    plans.update(plan)
+  return out, plans
+
+
 def run_clauses(ctx, prefix, relevant, rule, assumptions=(), profiles=None, name="shared", plan=None,
-                extra=None):
-  res = shared.get(ctx, name=name, profiles=profiles, plan=plan)
+                extra=None, corpora=None):
+  if corpora:
+    res, plan = merged(ctx, corpora)
+  else:
+    res = shared.get(ctx, name=name, profiles=profiles, plan=plan)
   viol = shared.clause_violations(ctx, res, prefix, shared.n_bundles_fn(ctx, plan))
   n_events = sum(len(t["events"]) for t in res["traces"])
   rel = [(t["tid"], i + 1, e) for t in res["traces"] for i, e in enumerate(t["events"]) if relevant(e)]
